@@ -31,6 +31,14 @@ pub fn input_path_to_segments(path: &InputPath) -> (r: Result<Vec<String>, Strin
 #[verifier::external_body]
 pub fn header_allow() -> (r: HeaderName) ensures r.name@ == "allow"@ { unimplemented!() }
 #[verifier::external_body]
+pub fn header_accept() -> (r: HeaderName) ensures r.name@ == "accept"@ { unimplemented!() }
+/// DoubleEndedIterator::next_back of vec::IntoIter: takes from the BACK of what remains
+pub assume_specification<T, A: core::alloc::Allocator>[ <std::vec::IntoIter<T, A> as DoubleEndedIterator>::next_back ](it: &mut std::vec::IntoIter<T, A>) -> (r: Option<T>)
+    ensures
+        IteratorSpec::remaining(&*old(it)).len() == 0 ==> r is None && IteratorSpec::remaining(&*final(it)).len() == 0,
+        IteratorSpec::remaining(&*old(it)).len() > 0 ==> r == Some(IteratorSpec::remaining(&*old(it)).last())
+            && IteratorSpec::remaining(&*final(it)) == IteratorSpec::remaining(&*old(it)).drop_last();
+#[verifier::external_body]
 #[derive(Debug)]
 pub struct HttpErrorKind { _p: u8 }
 pub open spec fn own_headers(e: HttpError) -> Seq<(Seq<char>, Seq<char>)> {
